@@ -61,6 +61,8 @@ type C4Case struct {
 	Segs     []C4Seg `json:"segs"`
 	Src      string  `json:"src"`
 	Deep     int     `json:"deep,omitempty"` // nesting depth the generator aimed at (deep family)
+	NoOpt    bool    `json:"noopt,omitempty"` // the parser's optimizer is switched off for this input
+	Eval     bool    `json:"eval,omitempty"`  // a returned function is also evaluated (must return too)
 }
 
 func c04Text(segs []C4Seg) string {
@@ -87,21 +89,41 @@ var c04Gens = []string{"value", "bool", "float", "empty", "lastunary"}
 type c04Gen struct {
 	name     string
 	generate func(src string) error // FunctionGenerator.Generate; the function itself is dropped
+	genEval  func(src string) (func() error, error) // Generate; the returned closure evaluates the function on arguments
 	tokens   func(src string) []parser2.VerifToken
 	received func(src string) (int, int, error)
 	config   func() (ops []string, textOps map[string]string, kws []string)
 	setup    func(comments, comfort bool)
+	setOpt   func(on bool)
 }
 
 func c04NumberParser() parser2.NumberParser[float64] {
 	return parser2.NumberParserFunc[float64](func(n string) (float64, error) { return strconv.ParseFloat(n, 64) })
 }
 
-func c04MakeGen[V any](name string, g *funcGen.FunctionGenerator[V], args ...string) *c04Gen {
+func c04MakeGen[V any](name string, g *funcGen.FunctionGenerator[V], arg V, args ...string) *c04Gen {
+	// pure host functions whose constant folding panics / fails (the fold-bomb stream)
+	g.AddStaticFunction("ppanic", funcGen.Function[V]{Func: func(st funcGen.Stack[V], cs []V) (V, error) { panic("host function panics") }, Args: 1, IsPure: true})
+	g.AddStaticFunction("perr", funcGen.Function[V]{Func: func(st funcGen.Stack[V], cs []V) (V, error) {
+		var zero V
+		return zero, fmt.Errorf("host function fails")
+	}, Args: 1, IsPure: true})
 	p := g.GetParser()
+	optimizer := funcGen.VerifOptimizer(g)
+	argv := make([]V, len(args))
+	for i := range argv {
+		argv[i] = arg
+	}
 	return &c04Gen{
 		name:     name,
 		generate: func(src string) error { _, _, err := g.Generate(src, args...); return err },
+		genEval: func(src string) (func() error, error) {
+			f, _, err := g.Generate(src, args...)
+			if err != nil {
+				return nil, err
+			}
+			return func() error { _, e := f.Eval(argv...); return e }, nil
+		},
 		tokens:   func(src string) []parser2.VerifToken { return p.VerifTokens(src) },
 		received: func(src string) (int, int, error) { return p.VerifParseReceived(src, g.Identifier().AddArgs(args, nil)) },
 		config: func() ([]string, map[string]string, []string) {
@@ -109,6 +131,13 @@ func c04MakeGen[V any](name string, g *funcGen.FunctionGenerator[V], args ...str
 			return ops, to, kw
 		},
 		setup: func(comments, comfort bool) { p.VerifSetComments(comments); p.Comfort(comfort) },
+		setOpt: func(on bool) {
+			if on {
+				p.SetOptimizer(optimizer)
+			} else {
+				p.SetOptimizer(nil)
+			}
+		},
 	}
 }
 
@@ -123,19 +152,19 @@ func c04GetGen(name string) *c04Gen {
 	var g *c04Gen
 	switch name {
 	case "value":
-		g = c04MakeGen(name, value.New().FunctionGenerator, c04Args...)
+		g = c04MakeGen[value.Value](name, value.New().FunctionGenerator, value.Int(1), c04Args...)
 	case "bool":
-		g = c04MakeGen(name, example.VerifBool(), c04Args...)
+		g = c04MakeGen(name, example.VerifBool(), true, c04Args...)
 	case "float":
-		g = c04MakeGen(name, example.VerifFloat(), c04Args...)
+		g = c04MakeGen(name, example.VerifFloat(), 1.0, c04Args...)
 	case "empty": // a generator without any binary operator
-		g = c04MakeGen(name, funcGen.New[float64]().SetNumberParser(c04NumberParser()), c04Args...)
+		g = c04MakeGen(name, funcGen.New[float64]().SetNumberParser(c04NumberParser()), 1.0, c04Args...)
 	case "lastunary": // the prefix operator is also the binary operator of the highest priority
 		fg := funcGen.New[float64]().SetNumberParser(c04NumberParser()).
 			AddSimpleOp("+", true, func(a, b float64) (float64, error) { return a + b, nil }).
 			AddSimpleOp("-", false, func(a, b float64) (float64, error) { return a - b, nil }).
 			AddUnaryFunc("-", func(a float64) (float64, error) { return -a, nil })
-		g = c04MakeGen(name, fg, c04Args...)
+		g = c04MakeGen(name, fg, 1.0, c04Args...)
 	default:
 		fatal("unknown generator %s", name)
 	}
@@ -169,6 +198,19 @@ type C4Result struct {
 // MemStats.Sys: goroutine stack, AST) and paid for with 250 us per KB; it must stay linear in the input (c04StackBoundKB).
 func c04Bound(n int, stackKB int64) time.Duration {
 	return 50*time.Millisecond + time.Duration(n)*50*time.Microsecond + time.Duration(stackKB)*250*time.Microsecond
+}
+
+// the fold-bomb stream: every fold at Generate time and the evaluation of the returned function may run into the
+// evaluator's 10000-slot stack guard (about 10000 nested interpreter calls, 70-450 ms on this machine when run alone):
+// a cost bounded by the guard, not by the input
+const c04GuardAllowance = 2 * time.Second
+
+func c04BoundCase(c *C4Case, n int, stackKB int64) time.Duration {
+	b := c04Bound(n, stackKB)
+	if c.Eval {
+		b += c04GuardAllowance
+	}
+	return b
 }
 
 func c04StackBoundKB(n int) int64 { return 16*1024 + 32*int64(n) }
@@ -211,9 +253,13 @@ func c04Hard(n int) time.Duration {
 func c04RunOne(c *C4Case, hardScale float64) C4Result {
 	g := c04GetGen(c.Gen)
 	g.setup(c.Comments, c.Comfort)
+	g.setOpt(!c.NoOpt)
 	src := c04Text(c.Segs)
 	res := C4Result{ID: c.ID}
 	hard := time.Duration(float64(c04Hard(len(src))) * hardScale)
+	if c.Eval {
+		hard += 4 * c04GuardAllowance
+	}
 
 	// 1. the token stream
 	res.Phase = "tokenize"
@@ -234,6 +280,7 @@ func c04RunOne(c *C4Case, hardScale float64) C4Result {
 		stack string
 	}
 	och := make(chan out, 1)
+	evalErr := ""
 	var m0, m1 runtime.MemStats
 	runtime.ReadMemStats(&m0)
 	t0 := time.Now()
@@ -247,7 +294,19 @@ func c04RunOne(c *C4Case, hardScale float64) C4Result {
 			}
 			och <- o
 		}()
-		o.err = g.generate(src)
+		if c.Eval {
+			res.Phase = "generate"
+			var ev func() error
+			ev, o.err = g.genEval(src)
+			if o.err == nil {
+				res.Phase = "evaluate"
+				if e := ev(); e != nil {
+					evalErr = e.Error()
+				}
+			}
+		} else {
+			o.err = g.generate(src)
+		}
 	}()
 	select {
 	case o := <-och:
@@ -259,10 +318,12 @@ func c04RunOne(c *C4Case, hardScale float64) C4Result {
 			res.Outcome, res.Msg, res.Site = 2, fmt.Sprint(o.pan), c04PanicSite(o.stack)
 		case o.err != nil:
 			res.Outcome, res.Msg = 1, o.err.Error()
+		case evalErr != "":
+			res.Msg = "evaluation returned the error: " + evalErr
 		}
 	case <-time.After(hard):
 		res.Micros = time.Since(t0).Microseconds()
-		res.Outcome, res.Msg = 3, fmt.Sprintf("Generate did not return within %v", hard)
+		res.Outcome, res.Msg = 3, fmt.Sprintf("no return within %v (phase %s)", hard, res.Phase)
 		return res
 	}
 	if len(res.Msg) > 300 {
@@ -569,6 +630,9 @@ func c04Streams(seed int64, tier string, boost int) []C4Case {
 		}
 	}
 
+	// ---- constant expressions whose folding panics, at every position the parser optimizes
+	s.foldBombs(thorough)
+
 	// ---- unterminated string / comment / quoted identifier at every position incl. the end; NUL; invalid UTF-8
 	inserts := []string{"\"", "'", "/*", "//", "\x00", "\xff", "\xc3", "\xe2\x82", "\\"}
 	progs := []struct{ gen, p string }{{"value", c04ValuePrograms[4]}, {"value", c04ValuePrograms[9]}, {"float", c04FloatPrograms[0]}, {"bool", c04BoolPrograms[1]}}
@@ -580,7 +644,7 @@ func c04Streams(seed int64, tier string, boost int) []C4Case {
 	for pi, pr := range progs {
 		for i := 0; i <= len(pr.p); i++ {
 			for _, ins := range inserts {
-				if !thorough && pi >= 2 && r.Chance(0.5) {
+				if !thorough && (pi >= 2 && r.Chance(0.5) || pi < 2 && r.Chance(0.3)) {
 					continue
 				}
 				s.add(c04Plain(pr.gen, true, r.Chance(0.5), "insert-at-every-position/"+fmt.Sprintf("%q", ins), pr.p[:i]+ins+pr.p[i:]))
@@ -589,7 +653,7 @@ func c04Streams(seed int64, tier string, boost int) []C4Case {
 	}
 
 	// ---- random streams
-	for i := 0; i < 500*scale; i++ {
+	for i := 0; i < 350*scale; i++ {
 		gen, cm, cf := s.cfg()
 		n := r.Pick(48)
 		if r.Chance(0.1) {
@@ -597,7 +661,7 @@ func c04Streams(seed int64, tier string, boost int) []C4Case {
 		}
 		s.add(c04Plain(gen, cm, cf, "random-bytes", s.randomBytes(n)))
 	}
-	for i := 0; i < 400*scale; i++ {
+	for i := 0; i < 280*scale; i++ {
 		gen, cm, cf := s.cfg()
 		n := 1 + r.Pick(60)
 		if r.Chance(0.08) {
@@ -605,7 +669,7 @@ func c04Streams(seed int64, tier string, boost int) []C4Case {
 		}
 		s.add(c04Plain(gen, cm, cf, "token-soup", s.soupText(n)))
 	}
-	for i := 0; i < 700*scale; i++ {
+	for i := 0; i < 500*scale; i++ {
 		gen, cm, cf := s.cfg()
 		ps := c04Programs(gen)
 		p := ps[r.Pick(len(ps))]
@@ -847,6 +911,9 @@ func c04Signature(c *C4Case, r *C4Result) string {
 	if c.Comfort {
 		trait += "+comfort"
 	}
+	if c.NoOpt {
+		trait += "+no-optimizer"
+	}
 	return fmt.Sprintf("%s/%s/%s", c04OutcomeName[r.Outcome], site, trait)
 }
 
@@ -855,7 +922,7 @@ func c04Human(c *C4Case, r *C4Result, src string) map[string]any {
 	if len(show) > 200 {
 		show = show[:100] + " ... " + show[len(show)-60:]
 	}
-	h := map[string]any{"input": fmt.Sprintf("%q", show), "bytes": len(src), "generator": c.Gen, "comments": c.Comments, "comfort": c.Comfort,
+	h := map[string]any{"input": fmt.Sprintf("%q", show), "bytes": len(src), "generator": c.Gen, "comments": c.Comments, "comfort": c.Comfort, "optimizer": !c.NoOpt,
 		"stream": c.Src, "outcome": c04OutcomeName[r.Outcome], "message": r.Msg, "micros": r.Micros, "fresh_kb": r.StackKB, "tokens": len(r.Tokens), "repro": c}
 	if r.Outcome >= 2 {
 		h["signature"] = c04Signature(c, r)
@@ -867,9 +934,9 @@ func c04Human(c *C4Case, r *C4Result, src string) map[string]any {
 
 func cmdC04(seed int64, tier, outDir string) {
 	sum := NewSummary("C04", seed, tier)
-	sum.Rule = "streams: corpus of past failures; unterminated string/comment/quoted identifier, NUL and invalid UTF-8 inserted at every position of valid programs; uniform and alphabet-biased random bytes; token soup over the language's alphabet; mutations (delete/insert/duplicate/swap/truncate) of valid programs (built-in programs per grammar and the C15 program generator); inputs up to 64 KiB; nesting up to 30000 (parentheses, brackets, braces, unary chains, if chains, closures, calls ...) x {value, bool, float generators, a generator without binary operators, one whose prefix operator is its last binary operator} x {comments, comfort}. Non-trivial = Generate returned an error on an input of at least 3 tokens, or a function on an input of at least 10 tokens; distinct by (generator, comments, comfort, outcome, error message class, token type sequence)"
+	sum.Rule = "streams: corpus of past failures; fold bombs (constant expressions whose folding at Generate time panics, fails or recurses into the stack guard - self application, pure host functions that panic/fail, failing constant index/member/method/operator - at every position the parser hands to the optimizer, optimizer on/off, a returned function is evaluated and must return); unterminated string/comment/quoted identifier, NUL and invalid UTF-8 inserted at every position of valid programs; uniform and alphabet-biased random bytes; token soup over the language's alphabet; mutations (delete/insert/duplicate/swap/truncate) of valid programs (built-in programs per grammar and the C15 program generator); inputs up to 64 KiB; nesting up to 30000 (parentheses, brackets, braces, unary chains, if chains, closures, calls ...) x {value, bool, float generators, a generator without binary operators, one whose prefix operator is its last binary operator} x {comments, comfort}. Non-trivial = Generate returned an error on an input of at least 3 tokens, or a function on an input of at least 10 tokens; distinct by (generator, comments, comfort, outcome, error message class, token type sequence)"
 	log.SetOutput(io.Discard)
-	cw := NewCaseWriter(outDir, "From P2 Require Import Base.Prelude Lex.Token Lex.Tok Run.C15Run Run.C04Run.", "c04_case", "c04_id", "c04_im", "c04_is", 150)
+	cw := NewCaseWriter(outDir, "From P2 Require Import Base.Prelude Lex.Token Lex.Tok Run.C15Run Run.C04Run.", "c04_case", "c04_id", "c04_im", "c04_is", 250)
 	base := c04CoqTables()
 	cw.prelude = base
 
@@ -893,7 +960,7 @@ func cmdC04(seed int64, tier, outDir string) {
 		if r.Outcome >= 3 {
 			return true
 		}
-		return time.Duration(r.Micros)*time.Microsecond > c04Bound(len(c04Text(c.Segs)), r.StackKB)
+		return time.Duration(r.Micros)*time.Microsecond > c04BoundCase(c, len(c04Text(c.Segs)), r.StackKB)
 	}
 	var again []C4Case
 	hard := 0
@@ -948,7 +1015,7 @@ func cmdC04(seed int64, tier, outDir string) {
 		src := c04Text(c.Segs)
 		sum.Evaluations++
 		depth := c04Depth(r.Tokens)
-		bound := c04Bound(len(src), r.StackKB)
+		bound := c04BoundCase(c, len(src), r.StackKB)
 		if r.Outcome < 3 && time.Duration(r.Micros)*time.Microsecond > bound {
 			r.Outcome = 3
 			r.Msg = fmt.Sprintf("Generate returned after %v, the bound for %d bytes and %d KB of fresh memory is %v (also when run alone)", time.Duration(r.Micros)*time.Microsecond, len(src), r.StackKB, bound)
@@ -1010,6 +1077,12 @@ func cmdC04(seed int64, tier, outDir string) {
 		if r.TokHang || r.Outcome == 4 && len(r.Tokens) == 0 {
 			// no token stream was observed: nothing to compare in Coq, the violation is reported from Go
 			sum.Skipped["no token stream (hang/crash), judged in Go"]++
+			continue
+		}
+		if c.Src == "fold-bomb" && c.ID%8 != 0 && optReplay == "" {
+			// small valid programs from a fixed set of templates: their token streams add nothing to the scanner
+			// comparison; the outcome (returned / panic / hang) is judged above. One in eight still goes through Coq.
+			sum.Skipped["fold-bomb stream: outcome judged in Go, token stream not sent to Coq (1 in 8 is)"]++
 			continue
 		}
 		// Coq case
